@@ -127,6 +127,39 @@ fn check_iterators(out: &mut Out, src: &str, tree: &Node, occ: &[(char, String)]
             },
         }
     }
+    // a node inside the tree is a tree of its own: its immutable and its mutable iterators list the same identifiers
+    // (up to six inner nodes per program)
+    let inner: Vec<&Node> = tree.iter().collect();
+    let stride = (inner.len() / 6).max(1);
+    for node in inner.iter().step_by(stride).take(6) {
+        let imm: Vec<Vec<String>> = vec![
+            node.iter_identifiers().map(|x| x.to_string()).collect(),
+            node.iter_variable_identifiers().map(|x| x.to_string()).collect(),
+            node.iter_function_identifiers().map(|x| x.to_string()).collect(),
+        ];
+        let mut c = (*node).clone();
+        let mutable: Vec<Vec<String>> = vec![
+            c.iter_identifiers_mut().map(|x| x.clone()).collect(),
+            c.iter_variable_identifiers_mut().map(|x| x.clone()).collect(),
+            c.iter_function_identifiers_mut().map(|x| x.clone()).collect(),
+        ];
+        // an identifier node lists itself (the whole tree's root is never one, an inner node may be)
+        let own: Option<String> = match node.operator() {
+            evalexpr::Operator::VariableIdentifierRead { identifier } | evalexpr::Operator::VariableIdentifierWrite { identifier } | evalexpr::Operator::FunctionIdentifier { identifier } => Some(identifier.clone()),
+            _ => None,
+        };
+        let _ = own;
+        if imm != mutable {
+            ok = false;
+            out.violation(
+                "iterators/inner-node-mutable-vs-immutable",
+                format!("{}  (inner node {})", src, crate::refmodel::parse::op_name(node.operator())),
+                format!("the same lists from the immutable iterators {:?}", imm),
+                format!("{:?} from the mutable ones", mutable),
+            );
+            break;
+        }
+    }
     out.evals(14);
     ok
 }
@@ -408,7 +441,7 @@ impl Phase for Random {
         let ast = {
             let vars = ["a", "b", "c", "x", "f", "g", "total", "ī", "нx", "ȫ", "ш", "a.b", "x'", "#q", "a\u{feff}b", "n\u{feff}", "\u{feff}z", "a\u{200b}", "r", "b", "a.0", "a.1", "a.1.0", "total.1", "x.len", "a[0]",
                 // names in the builtin namespaces, names of well-known constants, `#` (a shebang needs `#!`), `_`
-                "math::t", "str::x", "math::inf", "math::nan", "math::pi", "#", "#", "_", "self", "str::"];
+                "math::t", "str::x", "math::inf", "math::nan", "math::pi", "#", "#", "_", "self", "str::", "mod", "xor", "in", "is", "div", "op"];
             let funs = ["f", "g", "h", "max", "len", "math::clamp", "str::nope", "ns::f", "math::len", "a::b::c", "a", "total", "r", "r", "b", "f\u{feff}"];
             let mut g = AstGen {
                 r,
